@@ -217,6 +217,9 @@ class SidemanticAdapter(BaseAdapter):
         if graph.metrics:
             data["metrics"] = [self._export_metric(metric, graph) for metric in graph.metrics.values()]
 
+        if graph.parameters:
+            data["parameters"] = [self._export_parameter(parameter) for parameter in graph.parameters.values()]
+
         output_path.parent.mkdir(parents=True, exist_ok=True)
 
         with open(output_path, "w") as f:
@@ -472,6 +475,10 @@ class SidemanticAdapter(BaseAdapter):
             result["description"] = model.description
         if model.metadata:
             result["metadata"] = model.metadata
+        if model.extends:
+            result["extends"] = model.extends
+        if model.auto_dimensions:
+            result["auto_dimensions"] = model.auto_dimensions
 
         # Export joins
         if model.relationships:
@@ -514,6 +521,8 @@ class SidemanticAdapter(BaseAdapter):
                     dim_def["sql"] = dim.sql
                 if dim.granularity:
                     dim_def["granularity"] = dim.granularity
+                if dim.supported_granularities:
+                    dim_def["supported_granularities"] = dim.supported_granularities
                 if dim.description:
                     dim_def["description"] = dim.description
                 if dim.label:
@@ -540,6 +549,14 @@ class SidemanticAdapter(BaseAdapter):
                     measure_def["sql"] = measure.sql
                 if measure.filters:
                     measure_def["filters"] = measure.filters
+                if measure.fill_nulls_with is not None:
+                    measure_def["fill_nulls_with"] = measure.fill_nulls_with
+                if measure.extends:
+                    measure_def["extends"] = measure.extends
+                if measure.numerator:
+                    measure_def["numerator"] = measure.numerator
+                if measure.denominator:
+                    measure_def["denominator"] = measure.denominator
                 if measure.description:
                     measure_def["description"] = measure.description
                 if measure.label:
@@ -607,6 +624,13 @@ class SidemanticAdapter(BaseAdapter):
                     seg_def["public"] = segment.public
                 result["segments"].append(seg_def)
 
+        # Export pre-aggregations (they decide query routing)
+        if model.pre_aggregations:
+            result["pre_aggregations"] = [
+                preagg.model_dump(exclude_none=True, exclude_defaults=True) | {"name": preagg.name}
+                for preagg in model.pre_aggregations
+            ]
+
         return result
 
     def _export_metric(self, measure: Metric, graph) -> dict:
@@ -666,5 +690,42 @@ class SidemanticAdapter(BaseAdapter):
             result["window"] = measure.window
         if measure.filters:
             result["filters"] = measure.filters
+        if measure.agg:
+            result["agg"] = measure.agg
+        if measure.extends:
+            result["extends"] = measure.extends
+        if measure.grain_to_date:
+            result["grain_to_date"] = measure.grain_to_date
+        if measure.window_expression:
+            result["window_expression"] = measure.window_expression
+        if measure.window_frame:
+            result["window_frame"] = measure.window_frame
+        if measure.window_order:
+            result["window_order"] = measure.window_order
+        if measure.fill_nulls_with is not None:
+            result["fill_nulls_with"] = measure.fill_nulls_with
+        if measure.format:
+            result["format"] = measure.format
+        if measure.value_format_name:
+            result["value_format_name"] = measure.value_format_name
+        if measure.drill_fields:
+            result["drill_fields"] = measure.drill_fields
+        if measure.non_additive_dimension:
+            result["non_additive_dimension"] = measure.non_additive_dimension
 
+        return result
+
+    def _export_parameter(self, parameter: Parameter) -> dict:
+        """Export parameter to dictionary (inverse of _parse_parameter)."""
+        result = {"name": parameter.name, "type": parameter.type}
+        if parameter.description:
+            result["description"] = parameter.description
+        if parameter.label:
+            result["label"] = parameter.label
+        if parameter.default_value is not None:
+            result["default_value"] = parameter.default_value
+        if parameter.allowed_values:
+            result["allowed_values"] = parameter.allowed_values
+        if parameter.default_to_today:
+            result["default_to_today"] = parameter.default_to_today
         return result
